@@ -8,6 +8,11 @@ from .tables import Hooks, Abs, Unsupported
 from .model import ClassInfo
 
 
+import ast as _ast
+import re as _re
+from .model import External, dotted as _dotted
+
+
 class LineHooks(Hooks):
     def __init__(self, repo):
         self.repo = repo
@@ -110,4 +115,16 @@ class LineHooks(Hooks):
         if isinstance(v, Abs) and "name" in v.attrs and \
                 v.cls is not self.SegmentEnd and v.cls is not self.OrientedLine:
             return str(v.attrs["name"])
+        return NotImplemented
+
+    def function(self, ev, node, args, kwargs):
+        """stdlib calls on concrete values: re.match/search (the stdlib re
+        module is the only foreign code the checker executes), len, type"""
+        ent = ev.resolve(node.func)
+        if isinstance(ent, External) and ent.name in ("re.search", "re.match") \
+                and len(args) >= 2 and all(isinstance(a, str)
+                                           for a in args[:2]):
+            return getattr(_re, ent.name.split(".")[1])(args[0], args[1])
+        if isinstance(node.func, _ast.Name) and node.func.id == "type":
+            return "<type>"
         return NotImplemented
